@@ -25,6 +25,11 @@ pub fn chunkings(fe: &Fe, bs: usize, l: usize, kind: Kind) -> Vec<Vec<P>> {
         }
         return v;
     }
+    // empty calls before, between and after
+    v.push(vec![p(0, kind), p(l, kind), p(0, kind)]);
+    if l >= 2 * fe.gran {
+        v.push(vec![p(fe.gran, kind), p(0, kind), p(l - fe.gran, kind)]);
+    }
     if l > 0 {
         v.push((0..l / fe.gran).map(|_| P { len: fe.gran, kind, single: fe.singles }).collect());
         if fe.singles {
